@@ -101,7 +101,7 @@ def write_history(d, files, rng, decorate=True):
     return base, scan
 
 
-def impl_replay(base, look, limit, sched):
+def impl_replay(base, look, limit, sched, factor=1.0):
     from cpppo.history import files as F, times as T
     from cpppo.history.times import timestamp
     clock = [BASIS]
@@ -110,10 +110,11 @@ def impl_replay(base, look, limit, sched):
     F.timer = T.timer = lambda: clock[0]
     out = []
     try:
-        clock[0] = BASIS + sched[0] / 1000.0
-        ld = F.loader(base, historical=EPOCH, basis=BASIS, factor=1.0, lookahead=look / 1000.0)
+        # `sched` is the historical clock (ms after EPOCH) at each load(); at speed `factor` the wall clock runs 1/factor as fast
+        clock[0] = BASIS + sched[0] / 1000.0 / factor
+        ld = F.loader(base, historical=EPOCH, basis=BASIS, factor=factor, lookahead=look / 1000.0)
         for now in sched:
-            clock[0] = BASIS + now / 1000.0
+            clock[0] = BASIS + now / 1000.0 / factor
             _armed[0] = True
             signal.setitimer(signal.ITIMER_REAL, 1.5, 0.5)
             try:
@@ -282,6 +283,7 @@ def run(ctx):
     N = 1500 if ctx.thorough else 260
     cases, meta = [], []
     tmp = tempfile.mkdtemp(prefix='c18_')
+    nfactor = {}
     ndis, nbad, first = 0, 0, None
     nknown = 0
     try:
@@ -306,15 +308,17 @@ def run(ctx):
             d = os.path.join(tmp, 'h%d' % i)
             os.mkdir(d)
             base, scan = write_history(d, files, rng, decorate=i >= len(fixed))
-            out, vals = impl_replay(base, look, limit, sched)
+            factor = 1.0 if i < len(fixed) else rng.choice([1.0, 1.0, 2.0, 4.0, 0.5])
+            nfactor[factor] = nfactor.get(factor, 0) + 1
+            out, vals = impl_replay(base, look, limit, sched, factor)
             shutil.rmtree(d, ignore_errors=True)
-            cases.append(enc_case(scan, look, limit, sched)); meta.append((files, scan, look, limit, sched, out, vals))
+            cases.append(enc_case(scan, look, limit, sched)); meta.append((files, scan, look, limit, sched, out, vals, factor))
     finally:
         shutil.rmtree(tmp, ignore_errors=True)
     outs = core.run_model('history', cases)
     ncomplete = 0
-    for (files, scan, look, limit, sched, out, vals), o in zip(meta, outs):
-        desc = dict(files_newest_first=[(ext, recs) for ext, recs in scan], lookahead_ms=look, limit=limit, schedule_ms=sched)
+    for (files, scan, look, limit, sched, out, vals, factor), o in zip(meta, outs):
+        desc = dict(files_newest_first=[(ext, recs) for ext, recs in scan], lookahead_ms=look, limit=limit, schedule_ms=sched, factor=factor)
         if any(x[0] == 'EXC' for x in out):
             mout, mvals = None, None
         else:
@@ -350,6 +354,7 @@ def run(ctx):
                    'notes / null / truncated-JSON records, comment and blank lines incl. last line, plain+gz+bz2 copies side by side) x schedules (catch-up, paced every '
                    '10 ms, coarse random, late start) x look-ahead {0,20,100} ms x limit {none,1,2}; %d replays ran to COMPLETE; %d matched the recorded findings'
                    % (len(cases), ncomplete, nknown))
+    cov['speed_factors'] = {str(k): v for k, v in nfactor.items()}
     cov['impl_model_disagreements'] = ndis
     cov['impl_property_failures'] = nbad
     if ndis and not nbad:
@@ -358,7 +363,7 @@ def run(ctx):
         ctx.broken.append('correspondence cpppo.history.files loader/reader = Model.History.replay')
         ctx.notes.append(repr(first)[:1500])
     ctx.sample(dict(history=meta[0][1], schedule=meta[0][4], states=[ST.get(x[0], x[0]) for x in meta[0][5]]))
-    ctx.assumptions += ['frozen clock per load() (files.timer / times.timer replaced from outside); factor 1; timestamps multiples of 10 ms (cpppo timestamps 1 ms apart compare by float noise)',
+    ctx.assumptions += ['frozen clock per load() (files.timer / times.timer replaced from outside); speed factor 1, 2, 4 or 0.5 (the schedule is stated in historical time, the frozen wall clock scaled accordingly; the model has no factor); timestamps multiples of 10 ms (cpppo timestamps 1 ms apart compare by float noise)',
                         'no duration / upcoming; default on_bad_iframe / on_bad_data; xz copies not generated (needs the xz binary)']
 
 
